@@ -592,4 +592,205 @@ theorem addR_sim {m m' : Mem} {hh : Nat} {o : Val} {md : Option Int} {cs : List 
           · exact (hrel.tmp hte1).setBoth hx hH r
 
 
+/-! ## measurement -/
+
+/-- `ts'` differs from `ts` at most on Q0, on `M k`, on the trace and on the outcome oracle -/
+structure QEq (k : Nat) (ts ts' : St) : Prop where
+  arrs : ts'.arrs = ts.arrs
+  shmR : ts'.shmRegs = ts.shmRegs
+  shmA : ts'.shmArrs = ts.shmArrs
+  regs : ∀ x, x ≠ Q0 → x ≠ M k → ts'.regs x = ts.regs x
+
+theorem QEq.refl (k : Nat) (ts : St) : QEq k ts ts := ⟨rfl, rfl, rfl, fun _ _ _ => rfl⟩
+theorem QEq.trans {k : Nat} {a b c : St} (h1 : QEq k a b) (h2 : QEq k b c) : QEq k a c :=
+  ⟨h2.arrs.trans h1.arrs, h2.shmR.trans h1.shmR, h2.shmA.trans h1.shmA,
+   fun x h h' => (h2.regs x h h').trans (h1.regs x h h')⟩
+
+theorem QEq.setQ0 {k : Nat} {a b : St} (h : QEq k a b) (v : Int) : QEq k a (b.setReg Q0 v) :=
+  ⟨h.arrs, h.shmR, h.shmA, fun x hx hx' => by rw [St.setReg_regs_ne _ _ hx]; exact h.regs x hx hx'⟩
+
+theorem QEq.emitEv {k : Nat} {a b : St} (h : QEq k a b) (e : Ev) : QEq k a (b.emitEv e) :=
+  ⟨h.arrs, h.shmR, h.shmA, h.regs⟩
+
+theorem gates_sim : ∀ (gs : List Nat) (k : Nat) (p : List PCmd) (n : Nat) (ts : St),
+    Placed p n (gateCmds gs) →
+    ∃ ts', Runs p n (gateCmds gs).length ts ts' ∧ QEq k ts ts' ∧ ts'.trace = ts.trace ++ gateEvs gs ∧
+      ts'.outcomes = ts.outcomes
+  | [], k, p, n, ts, _ => ⟨ts, Runs.refl _ _ _, QEq.refl _ _, by simp [gateEvs], rfl⟩
+  | g :: gs, k, p, n, ts, hpl => by
+    simp only [gateCmds] at hpl
+    have h0 := hpl.left.head
+    have h1 := hpl.left.tail.head
+    have r0 : Runs p n 1 ts (ts.setReg Q0 0) := runs_instr h0 (by simp [exec])
+    have r1 : Runs p (n + 1) 1 (ts.setReg Q0 0) ((ts.setReg Q0 0).emitEv (.gate g)) :=
+      runs_instr h1 (by simp [exec])
+    obtain ⟨ts', hr, hq, ht, ho⟩ := gates_sim gs k p (n + 2) ((ts.setReg Q0 0).emitEv (.gate g)) (by
+      have := hpl.right; simpa using this)
+    refine ⟨ts', ?_, (((QEq.refl k ts).setQ0 0).emitEv _).trans hq, ?_, ?_⟩
+    · have r01 := runs_seq r0 r1
+      have := runs_seq' r01 hr (by omega)
+      exact runs_cast this (by simp [gateCmds]; omega)
+    · rw [ht]; simp [St.emitEv, St.setReg, gateEvs]
+    · rw [ho]; rfl
+
+theorem evalFut_congr {s1 s2 : HSt} (hr : s1.hregs = s2.hregs) (ha : s1.arrs = s2.arrs) :
+    ∀ f, evalFut s1 f = evalFut s2 f
+  | .lit a i => rfl
+  | .reg a h => by simp [evalFut, hr]
+  | .fut a f => by simp [evalFut, evalFut_congr hr ha f, ha]
+
+/-- the commands in front of the store of a measurement outcome -/
+def qopHead (g : List Nat) (k : Nat) : List PCmd :=
+  [PCmd.instr .set [.reg Q0, .lit 0], PCmd.instr .qalloc [.reg Q0], PCmd.instr .init [.reg Q0]]
+    ++ gateCmds g ++ [PCmd.instr .set [.reg Q0, .lit 0], PCmd.instr .meas [.reg Q0, .reg (M k)],
+      PCmd.instr .qfree [.reg Q0]]
+
+/-- `Qubit(conn)`, gates, `measure(future=…)` / `measure()` -/
+theorem qop_sim {m m' : Mem} {g : List Nat} {tgt : MTgt} {cs : List PCmd}
+    (h : emitQop m g tgt = .ok (m', cs)) (htgt : tgt ≠ .newReg)
+    {H : List (Reg × Bool)} {L : List Nat} {hs hs' : HSt} {ts : St} {p : List PCmd} {n : Nat}
+    (hext : Ext m.handles H) (hrel : Rel H L m.active m.measUsed hs ts) (hpl : Placed p n cs)
+    (hsem : ∃ a i,
+      evalFut hs (match tgt with | .fut f => f | _ => .lit m.arrLens.length 0) = some (a, i) ∧
+      writeCell { hs with trace := hs.trace ++ ([Ev.qalloc, Ev.init] ++ gateEvs g ++
+          [Ev.meas (hs.outcomes.headD 0), Ev.qfree]), outcomes := hs.outcomes.tail } a i
+        (hs.outcomes.headD 0) = some hs') :
+    ∃ ts', Runs p n cs.length ts ts' ∧ Rel H L m.active m.measUsed hs' ts' := by
+  obtain ⟨a, i, hev, hw⟩ := hsem
+  -- common shape of the two targets
+  have key : ∀ (m0 m1 m2 : Mem) (k : Nat) (f : Fut) (st : List PCmd),
+      firstUnusedMeas m0 = .ok (m1, k) → m0.active = m.active → m0.measUsed = m.measUsed →
+      m0.handles = m.handles →
+      accessCmds m1 true (M k) f = .ok (m2, st) →
+      evalFut hs f = some (a, i) →
+      Placed p n (qopHead g k ++ st) →
+      ∃ ts', Runs p n (qopHead g k ++ st).length ts ts' ∧ Rel H L m.active m.measUsed hs' ts' := by
+    intro m0 m1 m2 k f st h1 hact hmu hhd h2 hevf hpl'
+    unfold qopHead at hpl' ⊢
+    obtain ⟨hk, hm1⟩ := firstUnusedMeas_spec h1
+    subst hm1
+    rw [hmu] at hk
+    have hMk : ¬ Prot m.active m.measUsed (M k) := by
+      intro hp
+      rcases hp with hp | hp
+      · simp [M] at hp
+      · have hl := getD_true_false_lt hk
+        have h2' := hp.2
+        simp [M, List.getD, List.getElem?_eq_getElem hl] at h2' hk
+        rw [h2'] at hk; cases hk
+    have hQ0 : ∀ mu, ¬ Prot m.active mu Q0 := by
+      intro mu hp; rcases hp with hp | hp <;> simp [Q0] at hp
+    -- head: new qubit
+    have pA := hpl'.left.left.left
+    have pG := hpl'.left.left.right
+    have pM := hpl'.left.right
+    have pS := hpl'.right
+    let o := hs.outcomes.headD 0
+    have r0 : Runs p n 1 ts (ts.setReg Q0 0) := runs_instr pA.head (by simp [exec])
+    have r1 : Runs p (n + 1) 1 (ts.setReg Q0 0) ((ts.setReg Q0 0).emitEv .qalloc) :=
+      runs_instr pA.tail.head (by simp [exec])
+    have r2 : Runs p (n + 1 + 1) 1 ((ts.setReg Q0 0).emitEv .qalloc)
+        (((ts.setReg Q0 0).emitEv .qalloc).emitEv .init) :=
+      runs_instr pA.tail.tail.head (by simp [exec])
+    let tsA := ((ts.setReg Q0 0).emitEv .qalloc).emitEv .init
+    obtain ⟨tsG, rG, qG, tG, oG⟩ := gates_sim g k p (n + 3) tsA (by simpa using pG)
+    have m0' := pM.head
+    have m1' := pM.tail.head
+    have m2' := pM.tail.tail.head
+    let base := n + (([PCmd.instr .set [.reg Q0, .lit 0], PCmd.instr .qalloc [.reg Q0],
+        PCmd.instr .init [.reg Q0]] : List PCmd) ++ gateCmds g).length
+    have r3 : Runs p base 1 tsG (tsG.setReg Q0 0) := runs_instr m0' (by simp [exec])
+    let tsM : St := { ((tsG.setReg Q0 0).setReg (M k) o).emitEv (.meas o) with outcomes := tsG.outcomes.tail }
+    have r4 : Runs p (base + 1) 1 (tsG.setReg Q0 0) tsM :=
+      runs_instr m1' (by simp [exec, tsM, St.setReg, o, oG, tsA, St.emitEv, hrel.outs])
+    have r5 : Runs p (base + 1 + 1) 1 tsM (tsM.emitEv .qfree) := runs_instr m2' (by simp [exec])
+    let tsH := tsM.emitEv .qfree
+    let hs1 : HSt := { hs with trace := hs.trace ++ ([Ev.qalloc, Ev.init] ++ gateEvs g ++ [Ev.meas o, Ev.qfree]),
+                               outcomes := hs.outcomes.tail }
+    have qH : QEq k ts tsH := by
+      have q1 : QEq k ts tsA := (((QEq.refl k ts).setQ0 0).emitEv _).emitEv _
+      have q2 : QEq k ts (tsG.setReg Q0 0) := (q1.trans qG).setQ0 0
+      exact ⟨q2.arrs, q2.shmR, q2.shmA, fun x hx hx' => by
+        show (((tsG.setReg Q0 0).setReg (M k) o)).regs x = ts.regs x
+        rw [St.setReg_regs_ne _ _ hx']; exact q2.regs x hx hx'⟩
+    have hrelH : Rel H L m.active m.measUsed hs1 tsH := by
+      refine ⟨?_, ?_, ?_, ?_, hrel.inj, hrel.lens⟩
+      · show tsH.arrs = hs.arrs
+        rw [qH.arrs]; exact hrel.arrs
+      · show (((tsG.trace) ++ [Ev.meas o]) ++ [Ev.qfree]) = hs.trace ++ ([Ev.qalloc, Ev.init] ++ gateEvs g ++ [Ev.meas o, Ev.qfree])
+        rw [tG]
+        show ((((ts.trace ++ [Ev.qalloc]) ++ [Ev.init]) ++ gateEvs g) ++ [Ev.meas o]) ++ [Ev.qfree] = _
+        rw [hrel.trace]
+        simp [List.append_assoc]
+      · show tsG.outcomes.tail = hs.outcomes.tail
+        rw [oG]; simp [tsA, St.emitEv, St.setReg, hrel.outs]
+      · intro hh v hv
+        obtain ⟨r, b, e1, e2, e3⟩ := hrel.regs hh v hv
+        refine ⟨r, b, e1, ?_, e3⟩
+        rw [qH.regs r (fun e => hQ0 _ (e ▸ e3)) (fun e => hMk (e ▸ e3))]; exact e2
+    have hMv : tsH.regs (M k) = some o := by
+      show ((tsG.setReg Q0 0).setReg (M k) o).regs (M k) = some o
+      simp
+    obtain ⟨l, hl, hil⟩ : ∃ l, hs.arrs a = some l ∧ i < l.length := by
+      unfold writeCell at hw
+      split at hw
+      · rename_i l hl
+        split at hw
+        · rename_i hil; exact ⟨l, hl, hil⟩
+        · cases hw
+      · cases hw
+    have hev1 : evalFut hs1 f = some (a, i) := by
+      rw [evalFut_congr (s1 := hs1) (s2 := hs) rfl rfl f]; exact hevf
+    obtain ⟨tsD, hteD, hrunD⟩ := (access_sim f _ true (M k) m2 st h2 H L m.active m.measUsed hs1 tsH p _
+      (by show Ext m0.handles H; rw [hhd]; exact hext) hrelH
+      (by show Sub m.active m0.active; rw [hact]; exact Sub.refl _)
+      (by show m0.active.length = m.active.length; rw [hact]) pS a i hev1).2 rfl o l hMv
+      (by intro hc; have := hc.1; simp [M] at this) hl hil
+    have hteD' : TmpEq m.active tsH tsD := by
+      have : TmpEq m0.active tsH tsD := hteD
+      rwa [hact] at this
+    have hw' : hs' = hs1.setArr a (l.set i (some o)) := by
+      unfold writeCell at hw
+      have hl1 : ({ hs with trace := hs.trace ++ ([Ev.qalloc, Ev.init] ++ gateEvs g ++
+          [Ev.meas (hs.outcomes.headD 0), Ev.qfree]), outcomes := hs.outcomes.tail } : HSt).arrs a = some l := hl
+      rw [hl1] at hw
+      simp only at hw
+      rw [if_pos hil] at hw
+      exact (Option.some.inj hw).symm
+    refine ⟨tsD.setArr a (l.set i (some o)), ?_, ?_⟩
+    · have r01 := runs_seq r0 r1
+      have r012 := runs_seq' r01 r2 (by omega)
+      have rG' := runs_seq' r012 rG (by omega)
+      have r3' := runs_seq' rG' r3 (by simp [base]; omega)
+      have r4' := runs_seq' r3' r4 (by simp [base]; omega)
+      have r5' := runs_seq' r4' r5 (by simp [base]; omega)
+      have r6 := runs_seq' r5' hrunD (by simp [base]; omega)
+      exact runs_cast r6 (by simp; omega)
+    · rw [hw']
+      exact (hrelH.tmp hteD').setArr hl (by simp)
+  unfold emitQop at h
+  cases tgt with
+  | newFut =>
+    simp only at h
+    split at h
+    · cases h
+    · rename_i m1 k h1
+      split at h
+      · cases h
+      · rename_i m2 st h2
+        cases h
+        exact key _ m1 m2 k _ st h1 rfl rfl rfl h2 hev hpl
+  | fut f =>
+    simp only at h
+    split at h
+    · cases h
+    · rename_i m1 k h1
+      split at h
+      · cases h
+      · rename_i m2 st h2
+        cases h
+        exact key _ m1 m2 k _ st h1 rfl rfl rfl h2 hev hpl
+  | newReg => exact absurd rfl htgt
+
+
 end NQ.Sdk
